@@ -637,12 +637,69 @@ func TestLbvcScenarioCompaction(t *testing.T) {
 						wantVal[o] = k + "=" + e.v
 					}
 				}
+				desc := fmt.Sprintf("layout %d, segment bytes %d (%d segments), hw %d", li, segBytes, nseg, hw)
+				// forward readers opened BEFORE the clean, each having consumed k messages: after the clean they go on with
+				// the survivors behind their position (a reader sitting in a segment that is replaced or dropped is
+				// positioned anew)
+				type early struct {
+					r         *Reader
+					last      int64
+					k         int
+					committed bool
+				}
+				var earlies []early
+				for _, committed := range []bool{false, true} {
+					for k := 0; k <= 3 && k < len(all); k++ {
+						r, err := l.NewReader(0, !committed)
+						if err != nil {
+							continue
+						}
+						e := early{r: r, last: -1, k: k, committed: committed}
+						hb := make([]byte, 28)
+						for j := 0; j < k; j++ {
+							ctx, cancel := context.WithTimeout(context.Background(), 150*time.Millisecond)
+							_, off, _, _, err := r.ReadMessage(ctx, hb)
+							cancel()
+							if err != nil {
+								break
+							}
+							e.last = off
+						}
+						earlies = append(earlies, e)
+					}
+				}
 				if err := l.Clean(); err != nil {
 					problems = append(problems, "clean failed: "+err.Error())
 					cleanup()
 					continue
 				}
-				desc := fmt.Sprintf("layout %d, segment bytes %d (%d segments), hw %d", li, segBytes, nseg, hw)
+				for _, e := range earlies {
+					var exp, gotE []int64
+					for _, w := range want {
+						if w > e.last && (!e.committed || w <= hw) {
+							exp = append(exp, w)
+						}
+					}
+					hb := make([]byte, 28)
+					var rerr error
+					for len(gotE) < len(exp) {
+						ctx, cancel := context.WithTimeout(context.Background(), 150*time.Millisecond)
+						_, off, _, _, err := e.r.ReadMessage(ctx, hb)
+						cancel()
+						if err != nil {
+							rerr = err
+							break
+						}
+						gotE = append(gotE, off)
+					}
+					if fmt.Sprint(gotE) != fmt.Sprint(exp) {
+						kind := "uncommitted"
+						if e.committed {
+							kind = "committed"
+						}
+						problems = append(problems, desc+fmt.Sprintf(": a forward reader (%s) opened before the clean that had consumed %d messages (last offset %d) goes on with %v (error %v); the survivors behind it are %v", kind, e.k, e.last, gotE, rerr, exp))
+					}
+				}
 				got, vals := lbvcReadFwd(l, 0, len(all)+2)
 				missing := false
 				for _, w := range want {
